@@ -14,7 +14,8 @@ let eval (input : Sx.t) (obs : Sx.t) : Sx.t list * bool * bool * string =
   let (_, root) = node_of (arg "fs") in
   let dir = [str (arg "dir")] in
   let index = (match str (arg "index") with [] -> str_of_hex "x696e6465782e68746d6c" | i -> i) in
-  let o = { so_prefix = normalize_prefix (str (arg "prefix")); so_index = index; so_etag = bool_of (arg "etag") } in
+  let o = { so_prefix = normalize_prefix (str (arg "prefix")); so_index = index; so_etag = bool_of (arg "etag");
+            so_fs = (match Sx.field_opt "fsys" input with Some d -> bool_of (List.hd (Sx.args d)) | None -> false) } in
   let m = str (arg "method") and p = str (arg "path") in
   let head = (ocaml_string_of_str m = "HEAD") in
   let hdrs = Sx.L [Sx.A "hdrs"; arg "expires"; arg "cache"; arg "etag"] in
@@ -50,6 +51,6 @@ let eval (input : Sx.t) (obs : Sx.t) : Sx.t list * bool * bool * string =
         && not (List.exists (fun c -> c = str_of_hex "x2e2e") comps)
     | _ -> false) (Sx.args obs) in
   let defdir = (match Sx.field_opt "defdir" input with Some d -> bool_of (List.hd (Sx.args d)) | None -> false) in
-  let cls = (if defdir then "default-directory/" else "") ^ (match r1 with SPass -> "pass" | SRedirect _ -> "redirect" | SServe _ -> "serve" | SNotModified _ -> "notmodified") in
+  let cls = (if o.so_fs then "http.FS/" else "") ^ (if defdir then "default-directory/" else "") ^ (match r1 with SPass -> "pass" | SRedirect _ -> "redirect" | SServe _ -> "serve" | SNotModified _ -> "notmodified") in
   let traversal = List.exists (fun c -> c = str_of_hex "x2e2e") (Router.split_slash [] p) in
   (model, spec, (match r1 with SPass -> traversal | _ -> true), cls)
